@@ -22,6 +22,7 @@ import (
 	"os"
 	"path/filepath"
 	"reflect"
+	"regexp"
 	"sort"
 	"strings"
 
@@ -352,6 +353,11 @@ func (c *checker) checkWorld(w *world, scenario string) {
 			if class == "ok" && iclass == "ok" && fileOf(renderVal(v)) != fileOf(renderVal(iv)) {
 				key = "modules:resolution-order"
 			}
+			if class == "ok" && iclass == "ok" && varLeaf.ReplaceAllString(renderVal(v), "V") == varLeaf.ReplaceAllString(renderVal(iv), "V") {
+				// same definitions, a variable shows another binding: a later import of the same
+				// variable name overwrote the slot an earlier-compiled body refers to
+				key = "modules:variable-rebound-by-later-import"
+			}
 			ctx.Violate(key, fmt.Sprintf("`%s` with modules gives %s, with the module text inlined and renamed %s", callText(pc), got, want),
 				c.replay(w, src, map[string]any{"inlined_query": isrc, "observed": got, "expected": want}))
 		}
@@ -483,9 +489,6 @@ func (c *checker) checkWorld(w *world, scenario string) {
 				if own[pc] || done[key] || !pc.isVar && isBuiltinClash(pc.name, pc.arity) || pc.isVar && w.isGlobal(pc.name) {
 					continue
 				}
-				if !w.invisibleEverywhere(full, in.file, pc) {
-					continue
-				}
 				done[key] = true
 				if cnt++; cnt > 4 {
 					break
@@ -499,10 +502,7 @@ func (c *checker) checkWorld(w *world, scenario string) {
 	c.modulemeta(w)
 }
 
-// invisibleEverywhere: pc is not a name of the importer at any other import of the same file
-// that would make it legitimately visible (the file is only ever imported with an alias, so
-// its own flattening decides; kept as a separate hook for clarity).
-func (w *world) invisibleEverywhere(full *mtree, file string, pc call) bool { return true }
+var varLeaf = regexp.MustCompile(`[DG]:[^,()]*`)
 
 func sameJSON(a, b any) bool {
 	x, err1 := gojq.Marshal(a)
